@@ -31,7 +31,6 @@ import (
 	"github.com/pyroscope-io/pyroscope/pkg/structs/transporttrie"
 	"github.com/pyroscope-io/pyroscope/pkg/util/bytesize"
 	"verifharness/lib"
-	"verifharness/lib/treeu"
 )
 
 // ---------- input format ----------
@@ -300,7 +299,7 @@ func genBad(r *rand.Rand, c *caseCtx) Step {
 	s := genValid(r, c)
 	f := formatOf(s)
 	binary := f == "trie" || f == "tree"
-	switch r.Intn(17) {
+	switch r.Intn(19) {
 	case 0: // truncation
 		if len(s.Body) > 0 {
 			s.Body = s.Body[:r.Intn(len(s.Body))]
@@ -313,19 +312,35 @@ func genBad(r *rand.Rand, c *caseCtx) Step {
 			s.Body = b
 		}
 		s.HasRecs, s.Recs, s.Mut = false, nil, "bitflip"
-	case 2: // over-long line (D7): still rendered from records, one of which has a stack of more than 64 KiB
-		if binary || f == "lines" {
-			s.Format, s.CType = nil, ""
-			s.Recs = randRecs(r, "groups")
+	case 2: // over-long line (D7), both text formats; bufio.Scanner holds at most 65536 bytes including the newline
+		tf := lib.Pick(r, []string{"groups", "lines"})
+		s.CType = ""
+		if tf == "lines" {
+			s.Format = sptr("lines")
+		} else {
+			s.Format = nil
 		}
-		long := Rec{K: strings.Repeat("x", 65536+lib.Range(r, 0, 40)), V: 7}
+		if binary || f != tf {
+			s.Recs = randRecs(r, tf)
+		}
+		lineLen := lib.Pick(r, []int{65535, 65536, 65537, 65536 + lib.Range(r, 2, 40), 70000}) // 65535 is the longest accepted line
+		long := Rec{V: 7}
+		if tf == "lines" {
+			long.V = uint64(lib.Range(r, 1, 2))
+			long.K = strings.Repeat("x", lineLen)
+		} else {
+			long.K = strings.Repeat("x", lineLen-2) // "<key> 7"
+		}
 		p := r.Intn(len(s.Recs) + 1)
 		recs := append([]Rec{}, s.Recs[:p]...)
 		recs = append(recs, long)
 		recs = append(recs, s.Recs[p:]...)
 		s.Recs, s.HasRecs = recs, true
-		s.Body = renderBody("groups", recs)
+		s.Body = renderBody(tf, recs)
 		s.Mut = "longline"
+		if lineLen <= 65535 {
+			s.Mut = "maxline"
+		}
 	case 3: // negative / unparsable counts
 		s.Body = append(append([]byte{}, s.Body...), lib.Pick(r, []string{"a;b -5\n", "a;b x\n", "a;b 1e3\n", "a;b 99999999999999999999\n", "a;b \n", "a;b 5 \n", " 5\n", "nospace\n"})...)
 		s.HasRecs, s.Recs, s.Mut = false, nil, "badcount"
@@ -362,9 +377,10 @@ func genBad(r *rand.Rand, c *caseCtx) Step {
 	case 8: // junk / negative from: means now
 		s.From = TArg{Has: true, S: Bs(lib.Pick(r, []string{"junk", "-5", "abc123", "1.5", "0x10", "--"})), Rel: true}
 		s.Until = TArg{Has: lib.Chance(r, 0.5), S: Bs(lib.Pick(r, []string{"junk", "now", "-0"})), Rel: true}
+		s.Single = false
 		s.Mut = "junktime"
 	case 9: // from and until absent: both now
-		s.From, s.Until = TArg{Rel: true}, TArg{Rel: true}
+		s.From, s.Until, s.Single = TArg{Rel: true}, TArg{Rel: true}, false
 		s.Mut = "notime"
 	case 10: // empty name
 		s.Name = Bs("")
@@ -389,6 +405,28 @@ func genBad(r *rand.Rand, c *caseCtx) Step {
 	case 15: // name with odd characters
 		s.Name = Bs(c.names[0] + fmt.Sprintf("x%04x", r.Intn(65536)) + lib.Pick(r, []string{"{", "{a=", "}", "{a=b,a=c}", " ", "{=}", "\xff"}))
 		s.Mut = "oddname"
+	case 16, 17: // exactly one bound omitted (it defaults to the server's now), the other one on either side of the clock or junk
+		now := time.Now().Unix()
+		switch r.Intn(5) {
+		case 0: // until in the past, no from: from = now, window clamped to the slot of now
+			s.From, s.Until, s.Single = TArg{Rel: true}, abs(c.base+int64(lib.Range(r, 0, 100))), true
+			s.Mut = "onebound-until-past"
+		case 1: // from in the future, no until: until = now < from, window clamped to the slot of from
+			t := (now+int64(lib.Range(r, 1000, 5000000)))/10*10 + int64(lib.Range(r, 0, 9))
+			s.From, s.Until, s.Single = abs(t), TArg{Rel: true}, true
+			s.Mut = "onebound-from-future"
+		case 2: // until junk (= now) or in the near future, no from: a window starting in the slot of now
+			s.From, s.Single = TArg{Rel: true}, false
+			s.Until = lib.Pick(r, []TArg{{Has: true, S: Bs("junk"), Rel: true}, abs(now + int64(lib.Range(r, 20, 60)))})
+			s.Mut = "onebound-until-later"
+		case 3: // from junk (= now), until omitted
+			s.From, s.Until, s.Single = TArg{Has: true, S: Bs(lib.Pick(r, []string{"junk", "-3", "now"})), Rel: true}, TArg{Rel: true}, false
+			s.Mut = "onebound-from-junk"
+		default: // from a little in the past, no until: a window of a few slots ending now
+			off := -int64(lib.Range(r, 15, 90))
+			s.From, s.Until, s.Single = TArg{Has: true, S: Bs(fmt.Sprintf("now%ds", off)), Rel: true, Off: off}, TArg{Rel: true}, false
+			s.Mut = "onebound-from-past"
+		}
 	default: // trailing garbage after a valid binary body / text body without final newline
 		if binary {
 			s.Body = append(append([]byte{}, s.Body...), 0x01, 'z', 0x05, 0x00)
@@ -569,7 +607,7 @@ func dumpAll(ws []watch) ([]string, []string, string) {
 			if err != nil || g == nil || g.Tree == nil {
 				return
 			}
-			out[i] = lib.Some(treeu.Coq(g.Tree.VerifDump()))
+			out[i] = lib.Some(coqTree(g.Tree.VerifDump()))
 			meta[i] = lib.Some("(" + lib.Bytes([]byte(g.SpyName)) + ", " + lib.N(uint64(g.SampleRate)) + ", " + lib.Bytes([]byte(g.Units)) + ")")
 		}()
 	}
@@ -613,6 +651,30 @@ func dumpLabels(probes [][2]string) string {
 		items[i] = lib.Bool(found)
 	}
 	return lib.List(items)
+}
+
+// coqTree prints a dumped tree as a Coq term of type tnode; names go through coqBody (a stored stack may be 64 KiB long)
+func coqTree(n *tree.VerifNode) string {
+	var sb strings.Builder
+	var rec func(n *tree.VerifNode)
+	rec = func(n *tree.VerifNode) {
+		sb.WriteString("(TNode ")
+		sb.WriteString(coqBody(n.Name))
+		sb.WriteString(" ")
+		sb.WriteString(lib.N(n.Self))
+		sb.WriteString(" ")
+		sb.WriteString(lib.N(n.Total))
+		sb.WriteString(" [")
+		for i, c := range n.Children {
+			if i > 0 {
+				sb.WriteString("; ")
+			}
+			rec(c)
+		}
+		sb.WriteString("])")
+	}
+	rec(n)
+	return sb.String()
 }
 
 // coqBody prints a body as a Coq term of type bytes; runs of >= 64 equal bytes are run-length encoded (brep c n)
@@ -687,11 +749,22 @@ func run(in Input) lib.Result {
 				off = s.From.Off
 			}
 			lo := floor10(caseStart + off)
-			hi := lo + 120
-			if floor10(caseStart)+120 > hi {
-				hi = floor10(caseStart) + 120 // a window reaching from the past to now
+			hi := lo + 600
+			if floor10(caseStart)+600 > hi {
+				hi = floor10(caseStart) + 600 // a window reaching from the past to now
+			}
+			if !s.Single && s.Until.Has && !s.Until.Rel && floor10(s.Until.Abs)+10 > hi {
+				hi = floor10(s.Until.Abs) + 10
 			}
 			ws[i] = watch{s.Name, lo, hi}
+		}
+	}
+	// every series of the case is also watched over the whole supported range: nothing may appear anywhere else
+	seenName := map[string]bool{}
+	for _, s := range in.Steps {
+		if !seenName[string(s.Name)] {
+			seenName[string(s.Name)] = true
+			ws = append(ws, watch{s.Name, tLo, 1864403200})
 		}
 	}
 	var probes [][2]string
